@@ -309,7 +309,8 @@ func runC11(c *Ctx) {
 	// one client, two servers: limits do not carry over
 	for _, first := range []string{"LINELEN=2048", "NICKLEN=60 USERLEN=40 HOSTLEN=200", "LINELEN=300"} {
 		c.run("linelenreconnect", map[string]string{"first": first})
-		r.Traces++
+		c.run("linelenreconnect", map[string]string{"first": first, "second": "NETWORK=OtherNet CHANTYPES=#"})
+		r.Traces += 2
 	}
 	// a server that LOWERS the limit below the default, then messages whose lines fall between the new limit and the
 	// default one (they fit the default and must still be split)
